@@ -34,6 +34,7 @@ Inductive lent :=
 | LRet (r : option Z) (x : Z)         (* it returned r / raised x (1 KeyError, 2 other) *)
 | LCall (k : ck) (i e : Z) (w : bool) (* callback k of instance i entered with (e, world-is-this-world) *)
 | LEnd                                (* the callback returned *)
+| LQ (q : qobs)                       (* inside a callback: a read-only query and its answer *)
 | LProc.                              (* the processor ran *)
 
 Record robs := mkrobs {
@@ -239,6 +240,9 @@ Definition lstep (p : params) (sc : scripts) (n : nat) (c : config) (x : lent) :
       if oz_eqb r r' && (x =? x') then Some (s, stk') else None
   | LProc, FK (MProcs :: ms) :: stk' =>
       let '(s', ms') := run_micro p s ms in Some (s', FK ms' :: stk')
+  | LQ q, FCb rest :: stk' =>
+      (* queries never raise and change nothing; the answer is that of the state reached so far *)
+      if qcheck s q then Some (s, stk) else None
   | _, _ => None
   end.
 
